@@ -30,12 +30,13 @@ impl<const N: usize> Rib for RibbonController<N> {
 }
 
 pub const RATES: [u32; 12] = [100, 500, 1000, 1500, 2000, 8000, 10000, 22050, 44100, 48000, 96000, 192000];
-pub const RESISTORS: [(f32, f32, f32); 3] = [(20e3, 820.0, 1e6), (10e3, 470.0, 100e3), (10e3, 1e3, 11e3)];
+pub const RESISTORS: [(f32, f32, f32); 6] = [(20e3, 820.0, 1e6), (10e3, 470.0, 100e3), (10e3, 1e3, 11e3),
+                                             (20e3, 1.5e3, 1e6), (10e3, 1e3, 1e6), (47e3, 2.2e3, 470e3)];
 
 macro_rules! mk {
-    ($fs:expr, $s:expr, $d:expr, $p:expr, $($r:literal),*) => {
+    ($fs:expr, $frac:expr, $s:expr, $d:expr, $p:expr, $($r:literal),*) => {
         match $fs {
-            $( $r => Some((Box::new(RibbonController::<{ sample_rate_to_capacity($r) }>::new($r as f32, $s, $d, $p)) as Box<dyn Rib>,
+            $( $r => Some((Box::new(RibbonController::<{ sample_rate_to_capacity($r) }>::new($r as f32 + $frac, $s, $d, $p)) as Box<dyn Rib>,
                            sample_rate_to_capacity($r))), )*
             _ => None,
         }
@@ -43,7 +44,13 @@ macro_rules! mk {
 }
 
 pub fn make(fs: u32, res: (f32, f32, f32)) -> Option<(Box<dyn Rib>, usize)> {
-    mk!(fs, res.0, res.1, res.2, 100, 500, 1000, 1500, 2000, 8000, 10000, 22050, 44100, 48000, 96000, 192000)
+    make_frac(fs, 0.0, res)
+}
+
+/// a controller told the sample rate fs + frac (0 <= frac < 1) with the buffer sized for fs
+pub fn make_frac(fs: u32, frac: f32, res: (f32, f32, f32)) -> Option<(Box<dyn Rib>, usize)> {
+    mk!(fs, frac, res.0, res.1, res.2, 100, 500, 999, 1000, 1500, 1999, 2000, 8000, 9999, 10000, 22050, 44100, 47999, 48000, 96000,
+        192000)
 }
 
 fn boundary(res: (f32, f32, f32)) -> f32 {
@@ -52,8 +59,28 @@ fn boundary(res: (f32, f32, f32)) -> f32 {
 
 /// smallest 12-bit code whose sample is not below the press boundary
 fn threshold_code(res: (f32, f32, f32)) -> u32 {
+    threshold_code_den(res, 4096)
+}
+
+/// the same for samples code / den (den a power of two up to 2^24: every code is exact in f32)
+fn threshold_code_den(res: (f32, f32, f32), den: u32) -> u32 {
     let b = boundary(res);
-    (0..=4096u32).find(|k| !((*k as f32 / 4096.0) < b)).unwrap_or(4096)
+    let (mut lo, mut hi) = (0u32, den); // invariant: lo/den < b, !(hi/den < b)
+    if !((lo as f32 / den as f32) < b) {
+        return 0;
+    }
+    if (hi as f32 / den as f32) < b {
+        return den;
+    }
+    while hi - lo > 1 {
+        let mid = lo + (hi - lo) / 2;
+        if (mid as f32 / den as f32) < b {
+            lo = mid
+        } else {
+            hi = mid
+        }
+    }
+    hi
 }
 
 pub struct Session<'a> {
@@ -63,12 +90,13 @@ pub struct Session<'a> {
     pub alive: bool,
     pub thr: u32,
     pub need: usize,
+    pub den: u32,
     pub shapes: HashSet<u64>,
 }
 
 impl<'a> Session<'a> {
     pub fn new(out: &'a mut Out) -> Self {
-        Session { rib: None, out, stats: Stats::new(), alive: false, thr: 4096, need: 0, shapes: HashSet::new() }
+        Session { rib: None, out, stats: Stats::new(), alive: false, thr: 4096, need: 0, den: 4096, shapes: HashSet::new() }
     }
     fn panic_event(&mut self, during: &str, msg: &str) {
         self.out.line(&format!("{{\"op\":\"panic\",\"where\":\"ribbon\",\"during\":{},\"msg\":{}}}", jstr(during), jstr(msg)));
@@ -77,18 +105,24 @@ impl<'a> Session<'a> {
         self.rib = None;
     }
     pub fn start(&mut self, fs: u32, ri: usize) {
+        self.start_ext(fs, 0.0, ri, 12)
+    }
+    /// sample rate fs + frac, samples on the grid 2^-den_bits (12: ADC codes; 22: fine positions; 24: every
+    /// f32 in [0.5, 1), in particular the press boundary itself)
+    pub fn start_ext(&mut self, fs: u32, frac: f32, ri: usize, den_bits: u32) {
         let res = RESISTORS[ri];
-        self.thr = threshold_code(res);
+        self.den = 1 << den_bits;
+        self.thr = threshold_code_den(res, self.den);
         let ec = (res.0 + res.1) / res.2;
         let cap = sample_rate_to_capacity(fs);
         let ig = (fs / 1000) as usize;
         self.need = cap + ig.max(1) - 1;
         self.out.line(&format!(
-            "{{\"op\":\"new\",\"fs\":{},\"ri\":{},\"cap\":{},\"thr\":{},\"bq\":{},\"ecq\":{}}}",
-            fs, ri, cap, self.thr, q24(boundary(res)), q24(ec)
+            "{{\"op\":\"new\",\"fs\":{},\"fr\":{},\"ri\":{},\"cap\":{},\"thr\":{},\"den\":{},\"bq\":{},\"ecq\":{}}}",
+            fs, key(frac), ri, cap, self.thr, self.den, q24(boundary(res)), q24(ec)
         ));
         self.stats.add("runs", 1);
-        match guarded(|| make(fs, res)) {
+        match guarded(|| make_frac(fs, frac, res)) {
             Ok(Some((r, _))) => {
                 self.rib = Some(r);
                 self.alive = true;
@@ -106,7 +140,8 @@ impl<'a> Session<'a> {
             return;
         }
         let r = self.rib.as_mut().unwrap();
-        let (x, code) = if code == u32::MAX { (-0.0f32, 0) } else { (code as f32 / 4096.0, code) };
+        let den = self.den;
+        let (x, code) = if code == u32::MAX { (-0.0f32, 0) } else { (code as f32 / den as f32, code) };
         match guarded(|| {
             r.poll(x);
             (r.pressing(), r.value())
@@ -136,6 +171,50 @@ impl<'a> Session<'a> {
         match guarded(|| r.just_released()) {
             Ok(b) => self.out.line(&format!("{{\"op\":\"jr\",\"r\":{}}}", b)),
             Err(m) => self.panic_event("finger_just_released", &m),
+        }
+    }
+    /// n repetitions of a call pattern, run-length compressed (see midi::Session::repeat)
+    pub fn repeat(&mut self, n: usize, head: usize, mut f: impl FnMut(&mut Self)) {
+        let mut i = 0;
+        while i < n.min(head) {
+            f(self);
+            i += 1;
+        }
+        if i >= n || !self.alive {
+            return;
+        }
+        self.out.line("{\"op\":\"mark\"}");
+        self.out.begin_capture();
+        f(self);
+        let pat = self.out.end_capture();
+        self.out.emit_all(&pat);
+        i += 1;
+        self.repeat_like(&pat, n - i, f);
+    }
+    fn repeat_like(&mut self, pat: &[String], n: usize, mut f: impl FnMut(&mut Self)) {
+        let mut same = 0u64;
+        let mut i = 0;
+        while i < n {
+            self.out.begin_capture();
+            f(self);
+            let cur = self.out.end_capture();
+            i += 1;
+            if cur == pat {
+                same += 1;
+            } else {
+                if same > 0 {
+                    self.out.line(&format!("{{\"op\":\"rep\",\"n\":{}}}", same));
+                    same = 0;
+                }
+                self.out.emit_all(&cur);
+                while i < n {
+                    f(self);
+                    i += 1;
+                }
+            }
+        }
+        if same > 0 {
+            self.out.line(&format!("{{\"op\":\"rep\",\"n\":{}}}", same));
         }
     }
     fn maybe_edges(&mut self, rng: &mut Rng, per_mille: u64) {
@@ -175,8 +254,8 @@ impl<'a> Session<'a> {
     }
     pub fn lift(&mut self, rng: &mut Rng, n: usize, poll_pm: u64) {
         for _ in 0..n {
-            let code = self.thr + rng.below((4096 - self.thr) as u64 + 1) as u32;
-            self.poll(code.min(4096));
+            let code = self.thr + rng.below((self.den - self.thr) as u64 + 1) as u32;
+            self.poll(code.min(self.den));
             self.maybe_edges(rng, poll_pm);
         }
     }
@@ -260,6 +339,94 @@ pub fn drive_press(s: &mut Session, rng: &mut Rng, thorough: bool) {
             s.lift(rng, 1, 0);
             s.shapes.insert((fs as u64) << 8 | ri as u64);
         }
+    }
+}
+
+/// finer sample grids, other resistors, fractional sample rates, long unpolled histories
+pub fn drive_fine(s: &mut Session, rng: &mut Rng, thorough: bool) {
+    // (a) one long press with a finger creeping upwards far slower than one f32 step of a running sum per
+    //     sample (positions on the 2^-22 grid): the reported mean has to keep up with the window
+    for &(fs, every) in &[(10000u32, 16usize), (2000, 5), (22050, 40)] {
+        let ri = rng.below(6) as usize;
+        s.start_ext(fs, 0.0, ri, 22);
+        let n = if thorough { 40_000 } else { 9_000 };
+        let base = s.thr - 1 - (n / every) as u32 - rng.below(1000) as u32;
+        for i in 0..n {
+            s.poll(base + (i / every) as u32);
+        }
+        s.lift(rng, 2, 0);
+        s.jr();
+    }
+    // (b) the press boundary itself as a sample (exact on the 2^-24 grid), every resistor triple
+    for ri in 0..RESISTORS.len() {
+        for &fs in &[100u32, 1000, 2000, 8000] {
+            s.start_ext(fs, 0.0, ri, 24);
+            let (thr, need) = (s.thr, s.need);
+            // just below the boundary is a press ...
+            for _ in 0..(need + 2) {
+                s.poll(thr - 1 - rng.below(3) as u32);
+            }
+            s.jp();
+            // ... the boundary itself is not: the finger is lifted and the value held
+            for _ in 0..3 {
+                s.poll(thr);
+            }
+            s.jr();
+            for _ in 0..(need + 2) {
+                s.poll(thr - 1);
+            }
+            s.poll(thr);
+            s.poll(thr + 1);
+            // a run of boundary samples is no press either
+            for _ in 0..(need + 2) {
+                s.poll(thr);
+            }
+            s.jp();
+            s.shapes.insert((fs as u64) << 8 | ri as u64 | 1 << 40);
+        }
+    }
+    // (c) sample rates with a fractional part (truncated to whole Hz by the controller)
+    for &(fs, frac) in &[(1999u32, 0.5f32), (1999, 0.25), (9999, 0.75), (999, 0.75), (47999, 0.75), (1000, 0.4), (10000, 0.4),
+                         (44100, 0.5), (2000, 0.99), (500, 0.5)] {
+        if fs > 20000 && !thorough && frac != 0.75 {
+            continue;
+        }
+        let ri = rng.below(3) as usize;
+        s.start_ext(fs, frac, ri, 12);
+        let need = s.need;
+        for d in [-1i64, 0, 1] {
+            s.hold(rng, (need as i64 + d) as usize, 1, 0);
+            s.jp();
+            s.lift(rng, 1, 0);
+            s.jr();
+        }
+    }
+    // (d) many complete press / release cycles with nobody polling the edge latches, then the latches
+    for &(cycles, fs) in &[(256usize, 100u32), (512, 500), (255, 100), (65_536, 100), (65_600, 100)] {
+        if cycles > 60_000 && fs != 100 {
+            continue;
+        }
+        s.start(fs, rng.below(3) as usize);
+        let need = s.need;
+        let code = rng.below(s.thr as u64) as u32;
+        let thr = s.thr;
+        s.repeat(cycles, 3, |s| {
+            for _ in 0..(need + 1) {
+                s.poll(code);
+            }
+            s.poll(thr);
+        });
+        s.jp();
+        s.jr();
+        s.jp();
+        s.jr();
+        // one more cycle, polled
+        for _ in 0..(need + 1) {
+            s.poll(code);
+        }
+        s.jp();
+        s.poll(thr);
+        s.jr();
     }
 }
 
@@ -387,22 +554,23 @@ pub fn drive_extreme(s: &mut Session, rng: &mut Rng) {
     }
 }
 
-pub fn rerun(lines: &[serde_json::Value], out: &mut Out) {
-    let mut s = Session::new(out);
-    for e in lines {
+fn rerun_one(s: &mut Session, e: &serde_json::Value) {
+    {
         match e["op"].as_str().unwrap_or("") {
             "new" => {
-                if e["thr"].as_u64() == Some(4096) && e["ecq"].as_u64() == Some(0) {
+                if e["thr"].as_u64() == Some(4096) && e["ecq"].as_u64() == Some(0) && e.get("den").is_none() {
                     s.out.line("{\"op\":\"new\",\"fs\":100,\"ri\":0,\"cap\":2,\"thr\":4096,\"bq\":16777216,\"ecq\":0}");
                 } else {
-                    s.start(e["fs"].as_u64().unwrap() as u32, e["ri"].as_u64().unwrap_or(0) as usize)
+                    let den = e.get("den").and_then(|d| d.as_u64()).unwrap_or(4096);
+                    let frac = e.get("fr").and_then(|d| d.as_i64()).map(unkey).unwrap_or(0.0);
+                    s.start_ext(e["fs"].as_u64().unwrap() as u32, frac, e["ri"].as_u64().unwrap_or(0) as usize, den.trailing_zeros())
                 }
             }
             "p" => s.poll(e["x"].as_u64().unwrap() as u32),
             "jp" => s.jp(),
             "jr" => s.jr(),
             "pair" => pair_case(
-                &mut s,
+                s,
                 e["fs"].as_u64().unwrap() as u32,
                 e["ri"].as_u64().unwrap() as usize,
                 e["seed"].as_u64().unwrap(),
@@ -413,11 +581,44 @@ pub fn rerun(lines: &[serde_json::Value], out: &mut Out) {
     }
 }
 
+pub fn rerun(lines: &[serde_json::Value], out: &mut Out) {
+    let mut s = Session::new(out);
+    let mut mark: Option<usize> = None;
+    for (i, e) in lines.iter().enumerate() {
+        match e["op"].as_str().unwrap_or("") {
+            "mark" => {
+                s.out.line("{\"op\":\"mark\"}");
+                s.out.begin_capture();
+                mark = Some(i);
+            }
+            "rep" => {
+                let pat_out = s.out.end_capture();
+                s.out.emit_all(&pat_out);
+                if let Some(m) = mark.take() {
+                    let pat: Vec<&serde_json::Value> = lines[m + 1..i].iter().collect();
+                    let n = e["n"].as_u64().unwrap() as usize;
+                    s.repeat_like(&pat_out, n, |s| {
+                        for x in &pat {
+                            rerun_one(s, x);
+                        }
+                    });
+                }
+            }
+            _ => rerun_one(&mut s, e),
+        }
+    }
+    let rest = s.out.end_capture();
+    s.out.emit_all(&rest);
+}
+
 pub fn record(driver: &str, seed: u64, thorough: bool, out: &mut Out) -> Stats {
     let mut rng = Rng::new(seed ^ 0x7269_6262);
     let mut s = Session::new(out);
     match driver {
-        "press" => drive_press(&mut s, &mut rng, thorough),
+        "press" => {
+            drive_press(&mut s, &mut rng, thorough);
+            drive_fine(&mut s, &mut rng, thorough);
+        }
         "pair" => drive_pair(&mut s, &mut rng, thorough),
         "extreme" => drive_extreme(&mut s, &mut rng),
         _ => {
